@@ -197,10 +197,18 @@ def _worker(check_factory, tier, wseed, max_examples, widx, q):
         state = {'last_fail': None, 'msg': None}
 
         def body(case):
+            if 'hung' in state:
+                # an executor that hung has cost its whole time limit (minutes): this worker stops searching and does not shrink - the hanging case is reported as found
+                # (it is confirmed by replays like every other failure); Hypothesis re-runs the failing case once more, which re-raises without running it again
+                if case_hash(case) == state['hung'][0]:
+                    raise Violation(state['hung'][1])
+                return
             stats.evaluations += 1
             try:
                 info = check.run(case, ex) or {}
             except Violation as v:
+                if isinstance(v, ExecutorDied) and 'executor hung' in str(v):
+                    state['hung'] = (case_hash(case), str(v))
                 state['last_fail'] = case
                 state['msg'] = str(v)
                 if 'first_fail' not in state:
@@ -389,7 +397,7 @@ def main_check(check_factory, argv=None):
     reg_dir = os.path.join(VERIF, 'replays', pid)
     failure = None
     n_reg = 0
-    if os.path.isdir(reg_dir):
+    if os.path.isdir(reg_dir) and not os.environ.get('VERIF_DEV_SKIP_REPLAYS'):      # (development switch: measure what the generators find on their own)
         for fn in sorted(os.listdir(reg_dir)):
             if not fn.startswith('reg-') or not fn.endswith('.json'):
                 continue
